@@ -152,8 +152,12 @@ SPLIT_DECLS = [
     "typedef geo::Wrap<Item> WrapItem;",
     "namespace geo { template<T> class Wrap { Wrap(); }; double area(const geo::P& p); }",
     "double free_fn(int a = 3);",
+    "namespace geo { typedef geo::Wrap<geo::P> WrapP; typedef Box<Item> GeoBoxItem; }",     # typedefs INSIDE a namespace naming templates of other files
+    "enum Kind { K1, K2 };",
+    "class User { User(); void use(Kind k) const; Kind kind() const; };",                   # global class using a global enum of another file
 ]
-ORDERS3 = [[0, 1, 2, 3, 4, 5, 6], [2, 0, 3, 5, 1, 4, 6], [6, 5, 4, 3, 2, 1, 0], [1, 4, 0, 5, 2, 3, 6]]
+ND = len(SPLIT_DECLS)
+ORDERS3 = [[0, 1, 2, 3, 4, 5, 6, 7, 8, 9], [2, 0, 8, 3, 5, 1, 9, 4, 7, 6], [9, 8, 7, 6, 5, 4, 3, 2, 1, 0], [7, 1, 4, 9, 0, 5, 2, 8, 3, 6]]
 
 
 def matlab_files_for(texts):
@@ -178,13 +182,14 @@ def matlab_files_for(texts):
 
 def c16_matlab_split(order: int, cut1: int, cut2: int, ending: int) -> bool:
     """
-    Seven declarations (templates, typedefs of templates declared in another file, namespaces re-opened across
-    files) in 4 orders, split into 1-3 files at every pair of cut points, each file ending with / without a
+    Ten declarations (templates, typedefs — at global scope and inside a namespace — of templates declared in another
+    file, namespaces re-opened across files, a global class using a global enum of another file) in 4 orders, split into 1-3 files at every pair of cut points, each file ending with / without a
     newline or in a // comment: the toolbox equals the one generated from the single file.
-    pre: 0 <= order < len(ORDERS3) and 0 <= cut1 <= 7 and cut1 <= cut2 <= 7 and 0 <= ending <= 2
+    pre: 0 <= order < len(ORDERS3) and 0 <= cut1 <= ND and cut1 <= cut2 <= ND and 0 <= ending <= 2
     post: _
     """
-    order, cut1, cut2, ending = pick(order, 0, len(ORDERS3)), pick(cut1, 0, 8), pick(cut2, 0, 8), pick(ending, 0, 3)
+    order, cut1, cut2 = pick(order, 0, len(ORDERS3)), pick(cut1, 0, ND + 1), pick(cut2, 0, ND + 1)
+    ending = pick(ending, 0, 3) if THOROUGH else (cut1 + cut2 + order) % 3
     with concrete():
         decls = [SPLIT_DECLS[i] for i in ORDERS3[order]]
         end = ["\n", "", " // trailing"][ending]
@@ -478,7 +483,7 @@ def conds(tier):
         xh.Cond(M, "c16_matlab_concat", t(300, 1800), examples=["f1='a', tail=0", "f1='a;//a', tail=1", "f1='a;\\n', tail=0", "f1='/*a*/', tail=2"],
                 bounds="file1: all strings of length <= %d over {/,*,newline,space,a,;}; file2: 3 fixed continuations" % (3 if q else 4)),
         xh.Cond(M, "c16_matlab_split", t(420, 1800), kind="shape-bounded", path_timeout=60, examples=["order=1, cut1=2, cut2=5, ending=2", "order=3, cut1=1, cut2=1, ending=1"],
-                bounds="4 declaration orders x all pairs of cut points among 7 declarations x 3 file endings"),
+                bounds="4 declaration orders x all pairs of cut points among 10 declarations%s" % (" x 3 file endings" if not q else "; file ending derived")),
         xh.Cond(M, "c16_pybind_parts", t(200, 900), kind="shape-bounded", examples=["nparts=2, boost=1, order=0"], bounds="0-3 additional files x serialization x 3 orders"),
         xh.Cond(M, "c16_scripts", t(420, 1800), kind="shape-bounded", path_timeout=60, examples=["which=0, top=1, ign=2, boost=0, sub=0", "which=1, top=0, ign=0, boost=0, sub=1", "which=0, top=0, ign=0, boost=1, sub=1"],
                 bounds="2 scripts x 5 --top_module_namespaces values x 5 --ignore forms (absent, empty, one, two, a template instantiation whose name contains a comma) x serialization x (submodule | second file)"),
